@@ -1316,6 +1316,45 @@ def _flag_loops(tree):
                     break
 
 
+def _update_from_pairs(tree):
+    """Statement ``d.update((k, v) for x in xs if c)`` (a generator or list
+    comprehension of pairs) is ``for x in xs: if c: d[k] = v``."""
+    for node in ast.walk(tree):
+        for fld in ('body', 'orelse', 'finalbody'):
+            blk = getattr(node, fld, None)
+            if not (isinstance(blk, list) and blk and isinstance(
+                    blk[0], ast.stmt)):
+                continue
+            for i, st in enumerate(blk):
+                c = st.value if isinstance(st, ast.Expr) else None
+                if not (isinstance(c, ast.Call) and isinstance(
+                        c.func, ast.Attribute) and c.func.attr == 'update'
+                        and isinstance(c.func.value, ast.Name) and len(
+                            c.args) == 1 and not c.keywords and isinstance(
+                                c.args[0], (ast.GeneratorExp, ast.ListComp))
+                        and len(c.args[0].generators) == 1 and isinstance(
+                            c.args[0].elt, ast.Tuple) and len(
+                                c.args[0].elt.elts) == 2):
+                    continue
+                gen = c.args[0].generators[0]
+                k, v = c.args[0].elt.elts
+                store = ast.copy_location(ast.Assign(
+                    targets=[ast.Subscript(value=c.func.value, slice=k,
+                                           ctx=ast.Store())], value=v), st)
+                body = [store]
+                for cond in reversed(gen.ifs):
+                    body = [ast.copy_location(
+                        ast.If(test=cond, body=body, orelse=[]), st)]
+                tgt = gen.target
+                for x in ast.walk(tgt):
+                    if isinstance(x, ast.Name):
+                        x.ctx = ast.Store()
+                loop = ast.copy_location(ast.For(
+                    target=tgt, iter=gen.iter, body=body, orelse=[]), st)
+                ast.fix_missing_locations(loop)
+                blk[i] = loop
+
+
 def _first_match(tree):
     """``found = next((e for x in xs if c), d)`` - directly, or through a
     name bound to the generator in the statement before and used nowhere
@@ -1731,6 +1770,7 @@ def normalise(tree):
     _chain_loops(tree)
     _generator_loops(tree)
     _flag_loops(tree)
+    _update_from_pairs(tree)
     _plain_idioms(tree)
     _filtered_iteration(tree)
     _conditional_expressions(tree)
